@@ -934,7 +934,9 @@ pub fn judge(c: &CaseCtx, pre: &IdealTree, op: &TreeOp, outcome: &Outcome, be: &
     if c.focus == Focus::C07 && next.is_some() && first_visit(next.as_ref().unwrap()) {
         let m = next.as_ref().unwrap();
         let mut fails = vec![];
-        for pos in c.positions {
+        // on the sparse (large-depth) plans the alteration predicates run on every third position of the alphabet
+        let step = if c.full { 1 } else { 3 };
+        for pos in c.positions.iter().step_by(step) {
             let stored = m.leaf(*pos);
             let others: Vec<BigUint> = (0u8..4).map(val).filter(|v| *v != stored).collect();
             fails.extend(be.binding_failures(*pos, &stored, &others, m));
@@ -1529,12 +1531,16 @@ impl TreeProp {
             positions: all(3), full_obs: true, label: "depth3.value-a".into(),
         });
         let ops3b = alphabet(3, &[1, 2], with_batch, with_plain, &extra);
+        // (quick tier: the two-value depth-3 plan only where the alphabet is small; the one-value plan above and the
+        // two-value plans at depths 1 and 2 run everywhere)
+        if !q || f == Focus::C06 {
         plans.push(ExploreCfg {
             focus: f, depth: 3, ops: ops3b,
             backends: vec![(Kind::Full, 12), (Kind::Optimal, 12), (Kind::Pm, 1), (Kind::Rln, 1)],
             nodedup_len: 2, max_len: if q { 2 } else { 3 },
             positions: all(3), full_obs: true, label: "depth3.values-ab".into(),
         });
+        }
         if !q {
             // depths 4 and 5: range / batch sub-alphabet straddling every subtree boundary
             for d in [4usize, 5] {
@@ -1590,7 +1596,7 @@ impl TreeProp {
                 plans.push(ExploreCfg {
                     focus: f, depth: d, ops,
                     backends: vec![(Kind::Full, 4), (Kind::Optimal, 4), (Kind::Pm, if q { 1 } else { 2 })],
-                    nodedup_len: 1, max_len: 4, positions: all(d), full_obs: true, label: format!("depth{d}.rewrite"),
+                    nodedup_len: 1, max_len: if q && d == 5 && f == Focus::C07 { 3 } else { 4 }, positions: all(d), full_obs: true, label: format!("depth{d}.rewrite"),
                 });
             }
         }
